@@ -97,5 +97,9 @@ def run(ctx):
             not_ = ""
         lines.append("%s %s %s %d %s" % (tg.hx(old), tg.hx(new), tg.hx(not_), mx, tg.hx(s)))
     ctx.stream("literal-rewriter", "rw", [("rw%d" % i, lines[i:i + 500]) for i in range(0, len(lines), 500)], spec_exact=True, shrink=False)
+    # the same pipeline while the running table is changed through its admin API between bursts of repeated traffic: real table
+    # vs the model rebuilt from the resulting configuration (anything remembered from before a change shows as a difference)
+    ctx.stream("table-history", "table", tg.history_cases(ctx.rng("c04h"), ctx.scale(60, 1200), nrw=(1, 3), nagg=(0, 1)), classify=classify, nontrivial=nontrivial,
+               spec_exact=True, timeout=ctx.scale(600, 3000), removable=tg.HISTORY_REMOVABLE)
     ctx.stream("table-format", "table", cases(ctx.rng("c04"), ctx.scale(120, 2500)), classify=classify, nontrivial=nontrivial, spec_exact=True,
                monitor=monitor, removable=lambda l: l.startswith(("in ", "inm ", "aggin ")))
